@@ -129,7 +129,8 @@ fn action(case: &mut Case, a: usize, target: Option<&str>) -> (Vec<Op>, Option<E
     match a {
         0 => (vec![Op::Parse { prog: Prog::one(bin("+", lit_i(1), bin("*", lit_i(2), lit_i(3)))) }], None, Ret::Const(Val::int(7))),
         1 => (
-            vec![Op::Exec { prog: Prog::one(bin("+", call("min", vec![lit_i(3), lit_i(1)]), rf("v"))), ctx: fresh() }],
+            // (`y` and `x` are bound in the EVALUATING context only: in the handler's fresh context they read None)
+            vec![Op::Exec { prog: Prog::one(Expr::List(vec![bin("+", call("min", vec![lit_i(3), lit_i(1)]), rf("v")), rf("y"), rf("x")])), ctx: fresh() }],
             None,
             Ret::Const(Val::int(7)),
         ),
